@@ -84,6 +84,7 @@ class ABCPropertyGraph(ABCPropertyGraphConstants):
         "label_allocations": ABCPropertyGraphConstants.PROP_LABEL_ALLOCATIONS,
         "reservation_info": ABCPropertyGraphConstants.PROP_RESERVATION_INFO,
         "site": ABCPropertyGraphConstants.PROP_SITE,
+        "location": ABCPropertyGraphConstants.PROP_LOCATION,
         # note lack of image type in this mapping
         "image_ref": ABCPropertyGraphConstants.PROP_IMAGE_REF,
         "management_ip": ABCPropertyGraphConstants.PROP_MGMT_IP,
